@@ -77,9 +77,9 @@ Definition obs_eqb (a b : obs) : bool :=
 Definition arith_exc (e : exc) : bool :=
   match e with EZeroDiv | EArith | EValue => true | _ => false end.
 
-(** [admits m i]: the implementation's observation [i] is one the model/spec observation [m]
+(** [covers m i]: the implementation's observation [i] is one the model/spec observation [m]
     stands for *)
-Definition admits (m i : obs) : bool :=
+Definition covers (m i : obs) : bool :=
   match m, i with
   | OApx KFlt, OFlt _ => true
   | OApx KDec, ODec _ => true
@@ -135,7 +135,7 @@ Fixpoint forall2b {A B} (f : A -> B -> bool) (l1 : list A) (l2 : list B) : bool 
   end.
 
 Definition out_eqb (m i : out) : bool :=
-  match m, i with Paths ms, Paths is_ => forall2b admits ms is_ end.
+  match m, i with Paths ms, Paths is_ => forall2b covers ms is_ end.
 
 (** * the specification *)
 Definition qv (a : operand) : Q := den (pv_of a).
@@ -180,6 +180,6 @@ Definition spec_ok (c : case) (o : out) : bool :=
   | Paths (first :: rest) =>
       Nat.eqb (List.length rest) 3
       && forallb (obs_eqb first) rest            (* the call paths agree *)
-      && admits (spec_obs c) first               (* and give the prescribed answer *)
+      && covers (spec_obs c) first               (* and give the prescribed answer *)
   | _ => false
   end.
